@@ -907,12 +907,25 @@ def concretize(v, model):
             return [concretize(x, model) for x in v.items]
         n = ev(v.length)
         n = n.as_long() if z3.is_int_value(n) else 0
-        n = max(0, min(n, 64))
-        return [concretize(ops.list_get(v, z3.IntVal(i)), model) for i in range(n)]
+        n = max(0, min(n, 20000))
+        if n <= 64:
+            return [concretize(ops.list_get(v, z3.IntVal(i)), model) for i in range(n)]
+        # a long list: the model defines a few positions explicitly, all the others share the arrays' default
+        pts = set()
+        for a in v.arrs:
+            for kz in _array_points(model, a):
+                if z3.is_int_value(kz) and 0 <= kz.as_long() < n:
+                    pts.add(kz.as_long())
+        free = next(i for i in range(n) if i not in pts)
+        dflt = concretize(ops.list_get(v, z3.IntVal(free)), model)
+        out = [dflt] * n
+        for i in pts:
+            out[i] = concretize(ops.list_get(v, z3.IntVal(i)), model)
+        return out
     if isinstance(v, VObj):
         d = {"__class__": v.pytype}
         for k, x in v.fields.items():
-            if k.startswith("__"):
+            if k.startswith("__") and k not in ("__dict__", "__list__"):
                 continue
             try:
                 d[k] = concretize(x, model)
@@ -926,8 +939,74 @@ def concretize(v, model):
     if isinstance(v, VDict):
         if v.concrete:
             return {str(k[1]): concretize(x, model) for k, x in v.items.items()}
-        return "<dict>"
+        # symbolic dict: the keys at which the model's `present` array (and the value arrays) are defined explicitly
+        from .values import unflatten as _unflatten
+        keys = {}
+        for arr in [v.present] + list(v.arrs):
+            for kz in _array_points(model, arr):
+                keys[kz.sexpr()] = kz
+        # ... and every scalar of the key sort the model mentions (a constant `present` array names no key)
+        ksort = v.present.sort().domain()
+        try:
+            for dcl in model.decls():
+                if dcl.arity() == 0 and dcl.range() == ksort:
+                    kz = model[dcl]
+                    if z3.is_string_value(kz) or z3.is_int_value(kz):
+                        keys[kz.sexpr()] = kz
+        except Exception:  # noqa: BLE001
+            pass
+        if not keys:
+            # nothing named: the model does not care which key; the empty string / zero is as good as any
+            kz0 = z3.StringVal("") if ksort == z3.StringSort() else z3.IntVal(0)
+            keys[kz0.sexpr()] = kz0
+        out = {}
+        for kz in keys.values():
+            if z3.is_true(ev(z3.Select(v.present, kz))):
+                kk = _zstr(kz) if z3.is_string_value(kz) else (kz.as_long() if z3.is_int_value(kz) else str(kz))
+                out[kk] = concretize(_unflatten(v.shape, [z3.Select(a, kz) for a in v.arrs]), model)
+        return out
     return f"<{type(v).__name__}>"
+
+
+def _array_points(model, arr):
+    """index values at which the model defines an array explicitly (Store chains, function interpretations)"""
+    out, stack, seen = [], [model.eval(arr, model_completion=True)], set()
+    while stack:
+        x = stack.pop()
+        if x.get_id() in seen:
+            continue
+        seen.add(x.get_id())
+        if z3.is_app(x) and x.decl().kind() == z3.Z3_OP_STORE:
+            out.append(x.arg(1))
+            stack.append(x.arg(0))
+        elif z3.is_app(x) and x.decl().kind() == z3.Z3_OP_AS_ARRAY:
+            fi = model.get_interp(z3.get_as_array_func(x))
+            if fi is not None and hasattr(fi, "as_list"):
+                for entry in fi.as_list()[:-1]:
+                    out.append(entry[0])
+        elif z3.is_quantifier(x) and x.is_lambda():
+            # lambda k. ite(k == c, ...): the constants compared with the bound variable
+            for c in _eq_consts(x.body()):
+                out.append(c)
+    return [o for o in out if z3.is_string_value(o) or z3.is_int_value(o)]
+
+
+def _eq_consts(body):
+    out, stack, seen = [], [body], set()
+    while stack:
+        x = stack.pop()
+        if x.get_id() in seen:
+            continue
+        seen.add(x.get_id())
+        if z3.is_eq(x):
+            a, b = x.arg(0), x.arg(1)
+            if z3.is_var(a) and (z3.is_string_value(b) or z3.is_int_value(b)):
+                out.append(b)
+            elif z3.is_var(b) and (z3.is_string_value(a) or z3.is_int_value(a)):
+                out.append(a)
+        if z3.is_app(x):
+            stack.extend(x.children())
+    return out
 
 
 def jsonable(x):
